@@ -228,3 +228,280 @@ Proof.
   destruct (draw_many draw_segment (N.to_nat k) t2) as [more t3]. cbn [fst] in *.
   rewrite fm_seg by exact Hs. destruct s0; [congruence|]. cbn [is_nilb negb orb]. apply fm_more; [exact Hm|lia].
 Qed.
+
+(* ================================ Part 2: the size-free description ============================== *)
+Section SDeep.
+  Variable o : gopts.
+  Variable sch : schema.
+  Variable ann : annots.
+  Notation vr := repaired.
+
+  Definition srec_t := N -> ictx -> nat -> val -> Prop.
+
+  Definition selem (rec : srec_t) (pp : N) (f : field) (fa : fannot) (e : val) : Prop :=
+    match f_ty f with
+    | TScalar k => rg_scalar vr o k (a_enum fa) e = true
+    | TMsg tm => match e with VNil => True | _ => rec pp (IField (a_iface fa)) tm e end
+    end.
+
+  Definition sslot (rec : srec_t) (r : nat) (p : N) (f : field) (fa : fannot) (s : val) : Prop :=
+    rg_slot vr o sch ann r p f fa s = true /\
+    match f_shape f with
+    | Singular => selem rec p f fa s
+    | Rep _ =>
+      match s, f_ty f with
+      | VList l, TScalar _ => Forall (selem rec 1 f fa) l
+      | VList l, TMsg _ => if (2 <=? r)%nat then Forall (selem rec 1 f fa) l else True
+      | _, _ => True
+      end
+    | Member _ => match s with VSome e => selem rec p f fa e | _ => True end
+    | MapOf kk =>
+      match s with
+      | VMap kvs => Forall (fun kv => rg_scalar vr o kk [] (fst kv) = true /\ selem rec (10 * p) f fa (snd kv)) kvs
+      | _ => True
+      end
+    end.
+
+  Fixpoint sslots (rec : srec_t) (r : nat) (p : N) (fs : list field) (fas : list fannot) (ss : list val) : Prop :=
+    match fs, fas, ss with
+    | f :: fs', fa :: fas', s :: ss' => sslot rec r p f fa s /\ sslots rec r p fs' fas' ss'
+    | [], [], [] => True
+    | _, _, _ => False
+    end.
+
+  (* an Any: the marshalled form of SOME described payload *)
+  Definition s_any (rec : srec_t) (r : nat) (ic : ictx) (slots : list val) (unk : list byte) : Prop :=
+    unk = [] /\
+    exists u vb, slots = [VBytes u; vb] /\ (vb = VNil \/ exists b, vb = VBytes b) /\
+      if has_urls o then
+        exists tm ma, nth_error ann tm = Some ma /\ u = url_of ma /\ resolve ann u = Some tm /\ any_allowed vr o ic tm = true /\
+          if (2 <=? r)%nat then exists pv bs, rec 1 INoField tm pv /\ pulsar_marshal sch false tm pv = Ok bs /\ vb = VBytes bs
+          else bytes_empty vb = true
+      else u = [] /\ bytes_empty vb = true.
+
+  Fixpoint sdeep (r : nat) (p : N) (ic : ictx) (mid : nat) (v : val) {struct r} : Prop :=
+    match r with
+    | O => False
+    | S r' =>
+      match get_msg sch mid, nth_error ann mid, v with
+      | Some md, Some ma, VMsg slots unk =>
+        match a_wkt ma with
+        | WNone => rg_msg vr o sch ann r' ic ma md slots unk = true /\
+                   sslots (sdeep r') r' p (m_fields md) (a_fields ma) slots
+        | WAny => s_any (sdeep r') r' ic slots unk
+        | _ => rg_msg vr o sch ann r' ic ma md slots unk = true
+        end
+      | _, _, _ => False
+      end
+    end.
+
+  (* what setFields needs of the message it is handed (fresh, or the result of q earlier passes):
+     like [sslot] without the demands a pass re-establishes (singular scalars, forced fields) *)
+  Definition cslot (rec : srec_t) (r : nat) (q : N) (f : field) (fa : fannot) (s : val) : Prop :=
+    match f_shape f, f_ty f with
+    | Singular, TScalar _ => True
+    | Singular, TMsg tm =>
+      s = VNil \/ (is_msgv s = true /\ child_ok_singular o ann r tm = true /\ rec q (IField (a_iface fa)) tm s)
+    | Rep _, TScalar k =>
+      exists l, rep_len s = Some l /\ len_le l (10 * q) = true /\ Forall (fun e => rg_scalar vr o k (a_enum fa) e = true) l
+    | Rep _, TMsg tm =>
+      exists l, rep_len s = Some l /\ len_le l (10 * q) = true /\
+                (l = [] \/ child_ok_container vr o ann r tm = true) /\
+                Forall (fun e => is_msgv e = true /\ rec 1 (IField (a_iface fa)) tm e) l
+    | Member _, TScalar k => s = VNil \/ exists e, s = VSome e /\ rg_scalar vr o k (a_enum fa) e = true
+    | Member _, TMsg tm =>
+      s = VNil \/ exists e, s = VSome e /\ is_msgv e = true /\ child_ok_singular o ann r tm = true /\ rec q (IField (a_iface fa)) tm e
+    | MapOf kk, ty =>
+      exists kvs, map_kvs s = Some kvs /\ len_le kvs (10 * q) = true /\ nodup_keys (map fst kvs) = true /\
+        Forall (fun kv => rg_scalar vr o kk [] (fst kv) = true /\
+                          match ty with
+                          | TScalar k => rg_scalar vr o k (a_enum fa) (snd kv) = true
+                          | TMsg tm => is_msgv (snd kv) = true /\ rec (10 * q) (IField (a_iface fa)) tm (snd kv)
+                          end) kvs /\
+        match ty with TScalar _ => True | TMsg tm => kvs = [] \/ child_ok_container vr o ann r tm = true end
+    end.
+
+  Definition cur_ok (r : nat) (q : N) (mid : nat) (cur : val) : Prop :=
+    match r with
+    | O => False
+    | S r' =>
+      match get_msg sch mid, nth_error ann mid, cur with
+      | Some md, Some ma, VMsg slots unk =>
+        unk = [] /\
+        match a_wkt ma with
+        | WNone =>
+          length slots = length (m_fields md) /\
+          (forall i f fa s, nth_error (m_fields md) i = Some f -> nth_error (a_fields ma) i = Some fa ->
+                            nth_error slots i = Some s -> cslot (sdeep r') r' q f fa s) /\
+          (forall oi, (oi < m_oneofs md)%nat ->
+                      (oneof_count (m_fields md) slots oi <= 1)%nat /\
+                      In (oneof_state (m_fields md) slots 0%nat oi) (None :: oneof_reach o ann r' (m_fields md) 0%nat oi [None]))
+        | _ => True
+        end
+      | _, _, _ => False
+      end
+    end.
+End SDeep.
+
+Section Sound.
+  Variable o : gopts.
+  Variable sch : schema.
+  Variable ann : annots.
+  Notation vr := repaired.
+  Notation SD := (sdeep o sch ann).
+
+  Lemma len_le_mono {A} (l : list A) a b : a <= b -> len_le l a = true -> len_le l b = true.
+  Proof. unfold len_le. intros H1 H2. apply N.leb_le in H2. apply N.leb_le. lia. Qed.
+
+  Lemma len_le_nil {A} b : len_le (@nil A) b = true.
+  Proof. unfold len_le. apply N.leb_le. cbn. lia. Qed.
+
+  Lemma rg_slot_mono r p p' f fa s : p <= p' ->
+    rg_slot vr o sch ann r p f fa s = true -> rg_slot vr o sch ann r p' f fa s = true.
+  Proof.
+    intros Hp. unfold rg_slot. destruct (f_shape f); destruct (f_ty f) as [k|tm]; auto.
+    - intros H. splitb. apply andb_true_iff. split; [assumption|].
+      destruct (rep_len s); [|discriminate]. splitb. apply andb_true_iff. split; [assumption|].
+      eapply len_le_mono; [|eassumption]. lia.
+    - intros H. splitb. apply andb_true_iff. split; [assumption|].
+      destruct (rep_len s) as [l|]; [|discriminate]. destruct (child_ok_container vr o ann r tm); [|assumption].
+      destruct l; [assumption|]. splitb. apply andb_true_iff. split; [|assumption].
+      eapply len_le_mono; [|eassumption]. lia.
+    - destruct (map_kvs s); [|discriminate]. intros H. splitb.
+      repeat (apply andb_true_iff; split); try assumption. eapply len_le_mono; [|eassumption]. lia.
+    - destruct (map_kvs s); [|discriminate]. intros H. splitb.
+      repeat (apply andb_true_iff; split); try assumption. eapply len_le_mono; [|eassumption]. lia.
+  Qed.
+
+  Lemma selem_mono (rec : srec_t) pp pp' f fa e :
+    (forall ic tm x, rec pp ic tm x -> rec pp' ic tm x) -> selem o rec pp f fa e -> selem o rec pp' f fa e.
+  Proof. intros Hr. unfold selem. destruct (f_ty f); auto. destruct e; auto. Qed.
+
+  Lemma sdeep_mono : forall r p p' ic mid v, p <= p' -> SD r p ic mid v -> SD r p' ic mid v.
+  Proof.
+    induction r as [|r IH]; intros p p' ic mid v Hp; cbn [sdeep]; auto.
+    destruct (get_msg sch mid) as [md|]; auto. destruct (nth_error ann mid) as [ma|]; auto. destruct v; auto.
+    destruct (a_wkt ma); auto. intros [Hm Hs]. split; [exact Hm|].
+    revert Hs. generalize (a_fields ma) slots. induction (m_fields md) as [|f fs IHf]; intros [|fa fas] [|s ss]; cbn [sslots]; auto.
+    intros [[H1 H2] H3]. split; [|apply IHf; exact H3]. split; [eapply rg_slot_mono; eauto|].
+    destruct (f_shape f).
+    - eapply selem_mono; [|exact H2]. intros; eapply IH; [|eassumption]; assumption.
+    - exact H2.
+    - destruct s; auto. eapply selem_mono; [|exact H2]. intros; eapply IH; [|eassumption]; assumption.
+    - destruct s; auto. eapply Forall_impl; [|exact H2]. intros [k x] [Ha Hb]. split; [exact Ha|].
+      eapply selem_mono; [|exact Hb]. intros; eapply IH; [|eassumption]. lia.
+  Qed.
+
+  (* ---- positional access to aligned slot lists ---- *)
+  Lemma sslots_nth (rec : srec_t) r p : forall fs fas ss, sslots o sch ann rec r p fs fas ss ->
+    length fas = length fs /\ length ss = length fs /\
+    forall i f fa s, nth_error fs i = Some f -> nth_error fas i = Some fa -> nth_error ss i = Some s -> sslot o sch ann rec r p f fa s.
+  Proof.
+    induction fs as [|f fs IH]; intros [|fa fas] [|s ss]; cbn [sslots]; try contradiction.
+    - intros _. split; [reflexivity|]. split; [reflexivity|]. intros [|j]; discriminate.
+    - intros [H1 H2]. destruct (IH _ _ H2) as (L1 & L2 & Hn). cbn [length]. split; [lia|]. split; [lia|].
+      intros [|j] f' fa' s'; cbn [nth_error]; [intros; congruence|apply Hn].
+  Qed.
+
+  Lemma sslots_intro (rec : srec_t) r p : forall fs fas ss, length fas = length fs -> length ss = length fs ->
+    (forall i f fa s, nth_error fs i = Some f -> nth_error fas i = Some fa -> nth_error ss i = Some s -> sslot o sch ann rec r p f fa s) ->
+    sslots o sch ann rec r p fs fas ss.
+  Proof.
+    induction fs as [|f fs IH]; intros [|fa fas] [|s ss]; cbn [length sslots]; try lia; auto.
+    intros L1 L2 H. split; [apply (H 0%nat); reflexivity|]. apply IH; try lia.
+    intros i f' fa' s' A B C. apply (H (S i)); assumption.
+  Qed.
+
+  Lemma opt_nat_eqb_eq a b : opt_nat_eqb a b = true -> a = b.
+  Proof. destruct a, b; cbn; try discriminate; auto. intros H. apply Nat.eqb_eq in H. congruence. Qed.
+
+  Lemma existsb_opt_in x l : existsb (opt_nat_eqb x) l = true -> In x l.
+  Proof. intros H. apply existsb_exists in H. destruct H as (y & Hy & E). apply opt_nat_eqb_eq in E. congruence. Qed.
+
+  Lemma in_existsb_opt x l : In x l -> existsb (opt_nat_eqb x) l = true.
+  Proof.
+    intros H. apply existsb_exists. exists x. split; [exact H|]. destruct x; cbn; [apply Nat.eqb_refl|reflexivity].
+  Qed.
+
+  Lemma forallb_Forall {A} (g : A -> bool) l : forallb g l = true -> Forall (fun x => g x = true) l.
+  Proof. intros H. apply Forall_forall. intros x Hx. eapply forallb_forall in H; eauto. Qed.
+
+  (* a completed pass leaves what the next pass expects *)
+  Lemma sslot_cslot (rec : srec_t) r p f fa s : sslot o sch ann rec r p f fa s -> cslot o ann rec r p f fa s.
+  Proof.
+    unfold sslot, cslot, rg_slot, selem. intros [Hl Hd].
+    destruct (f_shape f) eqn:Es; destruct (f_ty f) as [k|tm] eqn:Et; auto.
+    - destruct s; try discriminate; [left; reflexivity|]. right. repeat split; auto.
+    - splitb. destruct (rep_len s) as [l|] eqn:El; [|discriminate]. splitb. exists l. repeat split; auto.
+      destruct s; cbn [rep_len] in El; try discriminate; injection El as <-; [constructor|exact Hd].
+    - splitb. destruct (rep_len s) as [l|] eqn:El; [|discriminate]. exists l.
+      destruct (child_ok_container vr o ann r tm) eqn:Ec.
+      + destruct l as [|e l].
+        * repeat split; auto using len_le_nil.
+        * splitb. split; [reflexivity|]. split; [assumption|]. split; [right; reflexivity|].
+          destruct s; cbn [rep_len] in El; try discriminate. injection El as ->.
+          unfold child_ok_container in Ec. apply andb_true_iff in Ec. destruct Ec as [E2 _]. rewrite E2 in Hd.
+          apply forallb_Forall in H1. rewrite Forall_forall in *. intros x Hx. specialize (Hd x Hx). specialize (H1 x Hx).
+          split; [exact H1|]. destruct x; try discriminate. exact Hd.
+      + cbn [v_list_truncate repaired] in H0. destruct l; [|discriminate]. repeat split; auto using len_le_nil.
+    - destruct s; try discriminate; [left; reflexivity|]. right. eexists. split; [reflexivity|exact Hd].
+    - destruct s; try discriminate; [left; reflexivity|]. destruct s; try discriminate. right. eexists. repeat split; auto.
+    - destruct (map_kvs s) as [kvs|] eqn:Ek; [|discriminate]. splitb. exists kvs. repeat split; auto.
+      destruct s; cbn [map_kvs] in Ek; try discriminate; injection Ek as <-; [constructor|].
+      eapply Forall_impl; [|exact Hd]. intros [a b] [Ha Hb]. split; assumption.
+    - destruct (map_kvs s) as [kvs|] eqn:Ek; [|discriminate]. splitb. exists kvs. repeat split; auto.
+      + destruct s; cbn [map_kvs] in Ek; try discriminate; injection Ek as <-; [constructor|].
+        apply forallb_Forall in H1. rewrite Forall_forall in *. intros [a b] Hx. specialize (Hd _ Hx). specialize (H1 _ Hx).
+        cbn [fst snd] in *. destruct Hd as [Ha Hb]. repeat split; auto. destruct b; try discriminate. exact Hb.
+      + apply orb_true_iff in H0. destruct H0 as [H0|H0]; [left; destruct kvs; [reflexivity|discriminate]|right; exact H0].
+  Qed.
+
+  Lemma sdeep_cur_ok r p ic mid v : SD r p ic mid v -> cur_ok o sch ann r p mid v.
+  Proof.
+    destruct r as [|r]; cbn [sdeep cur_ok]; auto.
+    destruct (get_msg sch mid) as [md|]; auto. destruct (nth_error ann mid) as [ma|]; auto. destruct v; auto.
+    destruct (a_wkt ma) eqn:Ew.
+    - intros [Hm Hs]. unfold rg_msg in Hm. rewrite Ew in Hm. splitb.
+      split; [destruct unk; [reflexivity|discriminate]|].
+      destruct (sslots_nth _ _ _ _ _ _ Hs) as (L1 & L2 & Hn). split; [exact L2|]. split.
+      + intros i f fa s A B C. apply sslot_cslot. eapply Hn; eauto.
+      + intros oi Hoi. unfold oneofs_ok in H0. eapply forallb_forall in H0; [|apply in_seq; split; [lia|cbn; exact Hoi]].
+        splitb. split; [apply Nat.leb_le; assumption|right; apply existsb_opt_in; assumption].
+    - unfold rg_msg. rewrite Ew. intros H. splitb. split; [destruct unk; [reflexivity|discriminate]|exact I].
+    - unfold rg_msg. rewrite Ew. intros H. splitb. split; [destruct unk; [reflexivity|discriminate]|exact I].
+    - intros [Hu _]. split; [exact Hu|exact I].
+    - unfold rg_msg. rewrite Ew. intros H. splitb. split; [destruct unk; [reflexivity|discriminate]|exact I].
+  Qed.
+
+  (* msgType.New(): what the first pass starts from *)
+  Lemma default_cslot (rec : srec_t) r f fa : cslot o ann rec r 0 f fa (default_slot f).
+  Proof.
+    unfold cslot, default_slot. destruct (f_shape f); destruct (f_ty f) as [k|tm]; auto.
+    - exists []. repeat split; auto using len_le_nil.
+    - exists []. repeat split; auto using len_le_nil.
+    - exists []. repeat split; auto using len_le_nil.
+    - exists []. repeat split; auto using len_le_nil.
+  Qed.
+
+  Lemma default_count fs oi : oneof_count fs (map default_slot fs) oi = 0%nat.
+  Proof.
+    induction fs as [|f fs IH]; cbn [map oneof_count]; [reflexivity|]. rewrite IH.
+    unfold default_slot. destruct (f_shape f); try (destruct (f_ty f)); reflexivity.
+  Qed.
+
+  Lemma default_state fs oi : forall i, oneof_state fs (map default_slot fs) i oi = None.
+  Proof.
+    induction fs as [|f fs IH]; intros i; cbn [map oneof_state]; [reflexivity|].
+    destruct (f_shape f); try apply IH. destruct (default_slot f) eqn:E; try apply IH.
+    exfalso. unfold default_slot in E. destruct (f_shape f); try discriminate. destruct (f_ty f) as [k|]; try discriminate. destruct k; discriminate.
+  Qed.
+
+  Lemma fresh_cur_ok r mid md ma : get_msg sch mid = Some md -> nth_error ann mid = Some ma ->
+    cur_ok o sch ann (S r) 0 mid (fresh sch mid).
+  Proof.
+    intros Hg Ha. unfold fresh. rewrite Hg. unfold empty_msg. cbn [cur_ok]. rewrite Hg, Ha.
+    split; [reflexivity|]. destruct (a_wkt ma); auto. split; [apply map_length|]. split.
+    - intros i f fa s Hf Hfa Hs. rewrite nth_error_map, Hf in Hs. injection Hs as <-. apply default_cslot.
+    - intros oi _. rewrite default_count, default_state. split; [lia|left; reflexivity].
+  Qed.
+End Sound.
